@@ -617,6 +617,12 @@ def check(ctx, rep):
 
     wap_prefix_boundary(ctx, rep, "R05f")
     request_target_evaluation(ctx, rep, "R05g")
+    rep.rule("R05n", "= R08g: the selector a link-file block advertises is the path it names (`./name`, `~/name`, relative, absolute, URL:, names "
+             "that start with dots): getLinkItem evaluated on scripted blocks", floor=5)
+    from .c08 import linkfile_text_obligations
+    umn_ = ctx.cls("handlers.UMN.UMNDirHandler")
+    if umn_ is not None:
+        linkfile_text_obligations(ctx, rep, umn_, "R05n")
     rep.rule("R05m", "the links WAP renders lead back: a target below the WAP prefix is recognised (prefix taken off) and then served by handle(), "
              "which asks the recognition step again - evaluated in that order; the selector is the path below the prefix, taken off once", floor=1)
     wap_request_evaluation(ctx, rep, "R05m")
